@@ -22,7 +22,9 @@ the glue between the frame builders and the packer / loss recovery.
    were not lost cover everything that was written.
 4. `noncontiguous_retransmission_fails` — the finding: frames of two non-adjacent ranges in one
    retransmission packet make MarshalInitialPacketPayload fail (the connection is closed); this is why
-   3. is stated for histories without a failed call.
+   3. is stated for histories without a failed call. The model follows the tree through the generated
+   fact `marshalReassembleFatal`; `noncontiguous_retransmission_sent_as_is` / `noncontiguous_history_recovers`
+   are the statements for a tree in which the proposed repair has been made.
 -/
 import Uquic.Props.C09
 import Uquic.Proofs.FramesGlueValidate
@@ -69,38 +71,64 @@ example : validate [[6, 0, 1, 7], [6, 1, 2, 8, 9]] [4] 3 = .err "toolarge@1" := 
 
 /-! ## 2. MarshalInitialPacketPayload carries what the packet registers -/
 
+/-- what "the packet carries exactly what it registers" means: the payload is a sequence of
+    PADDING/PING/CRYPTO frames, every CRYPTO frame holds the bytes of the stream `W` at its absolute
+    offset, and the CRYPTO frames cover exactly the bytes of the frames `reg` -/
+def CarriesRegistered (W p : List UInt8) (reg : List (Nat × List UInt8)) : Prop :=
+  ∃ fs, readFrames p = some fs ∧ (∀ c ∈ cryptoOf fs, sliceEq W 0 c.1 c.2 = true) ∧
+    ∀ i, CovF (cryptoOf fs) i ↔ CovF reg i
+
 /-- For every builder inside its contract (`BuilderFits`: nothing for QUICRandomFrames /
     QUICMultiDatagramFrames; lowest offset ≤ MaxUint16 on the pass-through path; a QUICFrames layout
     must tile the share), every datagram index, draw and shuffle, and ANY non-empty list of non-empty
     CRYPTO frames that are true cuts of the stream `W`: a payload returned by
-    MarshalInitialPacketPayload is a sequence of PADDING/PING/CRYPTO frames whose CRYPTO frames hold
-    `W`'s bytes at their absolute offsets, lie inside `[lo, lo+n)` and cover it — and `[lo, lo+n)` is
-    exactly the set of bytes covered by the frames handed in (= registered with the packet). -/
+    MarshalInitialPacketPayload carries exactly what was handed in (= what is registered with the
+    packet). When the frames reassemble into one range `[lo, lo+n)` — always, for a fresh pop — the
+    builder was handed exactly `(W[lo, lo+n), lo)` and its CRYPTO frames lie inside that range
+    (`carriesAt`); when they do not (non-adjacent retransmissions) and the tree does not treat that as
+    an error (`marshalReassembleFatal = false`), the frames go out as they are. -/
 theorem marshal_carries_what_it_registers (fb : Builder) (idx : Int) (frames : List (Nat × List UInt8)) (d : Draws)
     (perm : List Nat) (W p : List UInt8) (idx' : Int) (hW : W.length ≤ maxVarInt8) (hne : frames ≠ [])
     (ht : ∀ f ∈ frames, Truth W f)
     (hfit : ∀ lo n, 0 < n → lo + n ≤ W.length → BuilderFits fb lo n)
     (h : marshalInitial fb idx false frames d perm = .ok (p, idx')) :
-    idx' = idx + 1 ∧ ∃ lo n, 0 < n ∧ lo + n ≤ W.length ∧ carriesAt W 0 lo (lo + n) [p] = true ∧
-      ∀ i, CovF frames i ↔ (lo ≤ i ∧ i < lo + n) := by
+    idx' = idx + 1 ∧ CarriesRegistered W p frames ∧
+      ((∃ lo n, 0 < n ∧ lo + n ≤ W.length ∧ carriesAt W 0 lo (lo + n) [p] = true ∧
+          ∀ i, CovF frames i ↔ (lo ≤ i ∧ i < lo + n)) ∨
+        (Uquic.Gen.Frames.marshalReassembleFatal = false ∧ wireAll frames = some p)) := by
   have hok := framesOk_of_truth hW ht
-  obtain ⟨cd, lo, R, hidx, hb⟩ := marshal_reassembles fb idx frames d perm p idx' hok hne h
-  obtain ⟨hle, hcd⟩ := R.of_truthful (W := W) (fun f hf => ⟨(ht f hf).2.1, (ht f hf).2.2⟩)
-  have hpos := R.nonempty hok
-  have hc := builderCallM_carries fb idx d perm p R hok hne (hfit lo cd.length hpos hle) hb
-  rw [hcd] at hc
-  have hlen : ((W.drop lo).take cd.length).length = cd.length := by simp; omega
-  refine ⟨hidx, lo, cd.length, hpos, hle, ?_, ?_⟩
-  · have := carries_subslice (W := W) (lo := lo) (n := cd.length) (ps := [p]) hle hc
-    exact this
-  · intro i
+  rcases marshal_reassembles fb idx frames d perm p idx' hok hne h with ⟨cd, lo, R, hidx, hb⟩ | ⟨hfat, hw, hidx⟩
+  · obtain ⟨hle, hcd⟩ := R.of_truthful (W := W) (fun f hf => ⟨(ht f hf).2.1, (ht f hf).2.2⟩)
+    have hpos := R.nonempty hok
+    have hc := builderCallM_carries fb idx d perm p R hok hne (hfit lo cd.length hpos hle) hb
+    rw [hcd] at hc
+    have hcar := carries_subslice (W := W) (lo := lo) (n := cd.length) (ps := [p]) hle hc
+    have hcov : ∀ i, CovF frames i ↔ (lo ≤ i ∧ i < lo + cd.length) := by
+      intro i
+      constructor
+      · rintro ⟨f, hf, a, b⟩
+        have := R.low f hf
+        have := (R.piece f hf).1
+        omega
+      · rintro ⟨a, b⟩
+        exact R.cover i a b
+    refine ⟨hidx, ?_, Or.inl ⟨lo, cd.length, hpos, hle, hcar, hcov⟩⟩
+    obtain ⟨fs, hr, hd, hcv⟩ := carriesAt_elim hcar
+    refine ⟨fs, readAll_single hr, fun c hc' => (hd c hc').1, ?_⟩
+    intro i
+    rw [hcov]
     constructor
-    · rintro ⟨f, hf, a, b⟩
-      have := R.low f hf
-      have := (R.piece f hf).1
+    · rintro ⟨c, hc', a, b⟩
+      have := hd c hc'
       omega
     · rintro ⟨a, b⟩
-      exact R.cover i a b
+      exact hcv i a b
+  · refine ⟨hidx, ⟨frames.map (fun f => Frame.crypto f.1 f.2), readFrames_wireAll frames p hw, ?_, ?_⟩, Or.inr ⟨hfat, hw⟩⟩
+    · rw [cryptoOf_map_crypto]
+      intro c hc'
+      obtain ⟨_, t2, t3⟩ := ht c hc'
+      exact sliceEq_iff.mpr ⟨by omega, by omega, by simpa using t3⟩
+    · rw [cryptoOf_map_crypto]; intro i; exact Iff.rfl
 
 /-- hypotheses satisfiable: the retransmission of the FIRST 3 bytes of a 6-byte stream (queued after
     the later frame), pass-through builder: the payload starts at offset 0, not at the write offset -/
@@ -115,8 +143,7 @@ theorem perdatagram_packet_carries_registered {W : List UInt8} {s s' : PD} {d : 
     {p : List UInt8} {reg : List (Nat × List UInt8)} (h16 : W.length ≤ 16383) (hinv : Inv W s)
     (hfit : ∀ lo n, 0 < n → lo + n ≤ W.length → BuilderFits s.fb lo n)
     (hp : pack s d perm = (s', .pkt p reg)) :
-    (∀ f ∈ reg, Truth W f) ∧ ∃ lo n, 0 < n ∧ lo + n ≤ W.length ∧ carriesAt W 0 lo (lo + n) [p] = true ∧
-      ∀ i, CovF reg i ↔ (lo ≤ i ∧ i < lo + n) := by
+    (∀ f ∈ reg, Truth W f) ∧ CarriesRegistered W p reg := by
   obtain ⟨T, hfb, hidx⟩ := takeFrames_spec h16 hinv
   unfold pack at hp
   unfold finish at hp
@@ -138,7 +165,7 @@ theorem perdatagram_packet_carries_registered {W : List UInt8} {s s' : PD} {d : 
       rw [hfb] at hm
       have hW : W.length ≤ maxVarInt8 := by rw [maxVarInt8_eq]; omega
       have := marshal_carries_what_it_registers s.fb _ _ d perm W q idx' hW hne T.frames hfit hm
-      exact ⟨T.frames, this.2⟩
+      exact ⟨T.frames, this.2.1⟩
     | err e => rw [hm] at hp; simp only [] at hp; have := (Prod.mk.inj hp).2; simp at this
     | panic => rw [hm] at hp; simp only [] at hp; have := (Prod.mk.inj hp).2; simp at this
     | wrap => rw [hm] at hp; simp only [] at hp; have := (Prod.mk.inj hp).2; simp at this
@@ -182,22 +209,39 @@ example : (run (fresh .none [3, 0] 1200 20 [1, 2, 3, 4, 5])
     [.pack ⟨[], true⟩ [], .pack ⟨[], true⟩ [], .lose 0, .pack ⟨[], true⟩ [], .pack ⟨[], true⟩ []]).map
       (fun s => s.queue ++ [(s.cs.buf.length, s.cs.buf)]) = some [(0, [])] := by decide
 
-/-! ## 4. the finding: non-adjacent ranges in one retransmission packet -/
+/-! ## 4. the finding: non-adjacent ranges in one retransmission packet
+
+`Uquic.Gen.Frames.marshalReassembleFatal` is read from the tree (gofacts): `true` for the tree this
+check was built on. The statements below are implications, so they are checked — by kernel evaluation —
+whichever value the tree has: before the repair the first two say what goes wrong, after it the last
+two say that the frames go out as they are and the history recovers. -/
 
 /-- frames of two ranges that are not adjacent cannot be reassembled: MarshalInitialPacketPayload
     fails, PackCoalescedPacket returns the error and the connection is closed (known finding
     C09-noncontiguous-retransmission) — whatever the builder -/
-theorem noncontiguous_retransmission_fails :
+theorem noncontiguous_retransmission_fails : Uquic.Gen.Frames.marshalReassembleFatal = true →
     marshalInitial .none 3 false [(0, [10, 11]), (4, [14])] ⟨[], true⟩ [] = .err "reassemble" ∧
     marshalInitial (.random { minPing := 0, maxPing := 0, minCrypto := 1, maxCrypto := 1, minPad := 0, maxPad := 0, length := 0 })
       3 false [(0, [10, 11]), (4, [14])] ⟨[], true⟩ [0] = .err "reassemble" := by
-  constructor <;> decide
+  decide
 
 /-- … and a whole history that runs into it: ClientHello of 6 bytes in three datagrams (CryptoLength 2, 2, 2),
     datagrams 0 and 2 are lost, datagram 1 is not: the next PackCoalescedPacket fails -/
-theorem noncontiguous_history_fails :
+theorem noncontiguous_history_fails : Uquic.Gen.Frames.marshalReassembleFatal = true →
     run (fresh .none [2, 2, 2, 0] 1200 20 [1, 2, 3, 4, 5, 6])
       [.pack ⟨[], true⟩ [], .pack ⟨[], true⟩ [], .pack ⟨[], true⟩ [], .lose 0, .lose 2, .pack ⟨[], true⟩ []] = none := by
+  decide
+
+/-- the repaired tree: the same frames go out exactly as the packer produced them -/
+theorem noncontiguous_retransmission_sent_as_is : Uquic.Gen.Frames.marshalReassembleFatal = false →
+    marshalInitial .none 3 false [(0, [10, 11]), (4, [14])] ⟨[], true⟩ [] = .ok ([6, 0, 2, 10, 11, 6, 4, 1, 14], 4) := by
+  decide
+
+/-- the repaired tree: the same history goes on, the retransmission registers both ranges -/
+theorem noncontiguous_history_recovers : Uquic.Gen.Frames.marshalReassembleFatal = false →
+    (run (fresh .none [2, 2, 2, 0] 1200 20 [1, 2, 3, 4, 5, 6])
+      [.pack ⟨[], true⟩ [], .pack ⟨[], true⟩ [], .pack ⟨[], true⟩ [], .lose 0, .lose 2, .pack ⟨[], true⟩ []]).map
+        (fun s => s.sent) = some [none, some [(2, [3, 4])], none, some [(0, [1, 2]), (4, [5, 6])]] := by
   decide
 
 end Uquic.Props.C09Glue
